@@ -173,11 +173,12 @@ class Sub:
 
     def __init__(self, name, run, kind="given", strategy=None, machine=None, enumerate=None,
                  custom=None, budget=(200, 2000), shards=(1, 16), rule="", steps=(25, 50),
-                 nontrivial_required=True):
+                 nontrivial_required=True, fuzz_target=None):
         self.name, self.run, self.kind = name, run, kind
         self.strategy, self.machine, self.enumerate, self.custom = strategy, machine, enumerate, custom
         self.budget, self.shards, self.rule, self.steps = budget, shards, rule, steps
         self.nontrivial_required = nontrivial_required
+        self.fuzz_target = fuzz_target
 
     def n(self, tier):
         return self.budget[0] if tier == "quick" else self.budget[1]
@@ -408,6 +409,57 @@ def drive_enum(ctx, sub):
     ctx.exhaustive = complete
 
 
+def drive_fuzz(ctx, sub):
+    """coverage-guided campaign on the sub-check named sub.fuzz_target (child process, fresh corpus)"""
+    import shutil
+    import subprocess
+    import tempfile
+
+    runs = max(1, sub.n(ctx.tier) // ctx.nshards)
+    out = tempfile.mkdtemp(prefix="fuzz-", dir=env.scratch_root())
+    try:
+        with open(os.path.join(out, "known.json"), "w") as f:
+            json.dump(sorted(ctx.known), f)
+        seed_ = derive_seed(ctx.seed, ctx.prop, sub.name, ctx.shard) % (2 ** 31)
+        corpus_mode = "seeded" if ctx.shard % 2 == 0 else "empty"
+        cmd = [sys.executable, "-X", "faulthandler", "-m", "vf.fuzz", ctx.prop, sub.name, str(runs), str(seed_), out, corpus_mode]
+        envv = dict(os.environ, VERIF_REPO=env.REPO, PYTHONPATH=os.pathsep.join([env.VERIF_DIR, os.path.join(env.VERIF_DIR, ".deps")]))
+        budget = max(30.0, (ctx.deadline - time.time()) if ctx.deadline else 600.0)
+        try:
+            p = subprocess.run(cmd, cwd=env.VERIF_DIR, env=envv, capture_output=True, text=True, timeout=budget)
+            rc, tail = p.returncode, (p.stdout + p.stderr)[-1500:]
+        except subprocess.TimeoutExpired as e:
+            rc, tail = None, "time budget reached (campaign cut short; not a failure)"
+            ctx.skipped_for_time += 1
+        hp = os.path.join(out, "harness-error.txt")
+        if os.path.exists(hp):
+            raise env.HarnessError("fuzz child: " + open(hp).read()[-3000:])
+        sp = os.path.join(out, "stats.json")
+        if not os.path.exists(sp):
+            if "No module named 'atheris'" in tail or "ModuleNotFoundError" in tail and "atheris" in tail:
+                ctx.notes.append("atheris not installed: coverage-guided campaign skipped")
+                ctx.skipped_for_time += 1
+                return
+            raise env.HarnessError(f"fuzz child produced no stats (rc={rc}): {tail}")
+        with open(sp) as f:
+            r = json.load(f)
+        ctx.evaluations += r["evaluations"]
+        ctx.nontrivial |= set(r["nontrivial"])
+        ctx.samples += r["samples"][:2]
+        ctx.hist.update(r["hist"])
+        ctx.known_hits.update(r["known_hits"])
+        ctx.hist["libfuzzer-execs"] += r.get("execs", 0)
+        ctx.hist["libfuzzer-inputs-outside-domain-dropped"] += r.get("dropped", 0)
+        ctx.hist[f"corpus={corpus_mode}"] += 1
+        ctx.notes += r.get("notes", [])
+        for v in r["violations"]:
+            ctx.violations.append(v)
+        if not r["violations"] and rc not in (0, None):
+            raise env.HarnessError(f"fuzz child failed without a recorded violation (rc={rc}): {tail}")
+    finally:
+        shutil.rmtree(out, ignore_errors=True)
+
+
 def run_task(task):
     """Executed in a worker process. task = (prop, subname, tier, seed, shard, nshards, known, deadline)"""
     prop, subname, tier, seed_, shard, nshards, known, deadline = task
@@ -424,6 +476,8 @@ def run_task(task):
             drive_enum(ctx, sub)
         elif sub.kind == "custom":
             sub.custom(ctx, sub)
+        elif sub.kind == "fuzz":
+            drive_fuzz(ctx, sub)
         else:
             raise env.HarnessError(f"unknown kind {sub.kind}")
         res = ctx.result()
